@@ -864,8 +864,9 @@ type DeepSite struct {
 	Site  ssa.CallInstruction
 	In    *ssa.Function
 	Facts FactSet
-	Args  []string // keys of the call's arguments in the root's terms
-	Defer bool     // reached through a deferred helper call (arguments were evaluated at the defer statement)
+	Args  []string            // keys of the call's arguments in the root's terms
+	Defer bool                // reached through a deferred helper call (arguments were evaluated at the defer statement)
+	Via   ssa.CallInstruction // the call in the root function through which the site is reached (nil: the site is in the root)
 }
 
 func deepSites(fl *Flow, isTarget func(*ssa.CallCommon) bool, depth int) []DeepSite {
@@ -930,7 +931,7 @@ func deepSites(fl *Flow, isTarget func(*ssa.CallCommon) bool, depth int) []DeepS
 				}
 				m[g] = true
 			}
-			nd := DeepSite{Site: ds.Site, In: ds.In, Facts: m, Defer: ds.Defer || isDefer}
+			nd := DeepSite{Site: ds.Site, In: ds.In, Facts: m, Defer: ds.Defer || isDefer, Via: ci}
 			for _, a := range ds.Args {
 				nd.Args = append(nd.Args, subst(a))
 			}
@@ -1097,4 +1098,10 @@ func branchDominates(fl *Flow, in ssa.Instruction, pred func(Fact) bool) bool {
 		}
 	}
 	return false
+}
+
+// isCarriedProposerKey: the proposer id carried by a proposal message, read through
+// Proposal.ProposerID() or directly as Block.GetProposer() of the proposal's block.
+func isCarriedProposerKey(k string) bool {
+	return strings.Contains(k, ".ProposerID(") || (strings.Contains(k, "hotstuffpb.Block).GetProposer(") && strings.Contains(k, "Proposal).GetBlock("))
 }
